@@ -203,6 +203,16 @@ def run(ctx, res):
     gfirst = w.gfile.from_file(first)
     gfirst.gfx.set_sprite(0, [[1, 2, 3]])
     gfirst.sfx.set_note(0, 0, pitch=12, waveform=3, volume=5, effect=1)
+    # ... and has created and edited empty carts (in place, through the library)
+    from pico8.game.game import Game
+    for _ in range(2):
+        eg = Game.make_empty_game()
+        eg.gfx.set_sprite(3, [[7, 8, 9, 10]])
+        eg.map.set_cell(5, 5, 77)
+        eg.gff.set_flags(9, 0x81)
+        eg.sfx.set_note(2, 3, pitch=40, waveform=5, volume=6, effect=2)
+        eg.music.set_channel(1, 2, 33)
+        eg.write_cart_data(bytes([0x5a]) * 64, 0x2ff0)
     res.count('history-before-first-build')
     opts = ['u', 'p8', 'png', 'e']
     if ctx.tier == 'thorough':
